@@ -231,9 +231,13 @@ package storage
 //@   inline
 //@   opt frame = freshonly
 //@ func FetchTxState
-//@   serves C11
+//@   serves C11 C03
 //@   inline
 //@   opt frame = freshonly
+//@   opt partial = 1
+//@   ensures record: [C03 C11] result1 == nil ==> result0 != nil && result0.Tx != nil && fresh(result0)
+// (the transaction decoder of the wire library never leaves a nil output entry)
+//@   assumes outs: result1 == nil ==> forall(k, 0, len(result0.Tx.TxOut), result0.Tx.TxOut[k] != nil)
 
 //@ func verifSaveFetchTxState
 //@   serves C11
